@@ -566,6 +566,15 @@ let run_case (fn : string) : unit =
   | "merge_values" ->
       let a = rd_cval rd_row in let b = rd_cval rd_row in
       (match merge_values a b with None -> pr "P" | Some v -> pr_cval_row v)
+  | "nodecodec" ->
+      (* a mast node: keys, values, links ("-" = nil link, otherwise the bytes of the name) *)
+      let ks = rd_list rd_sval in
+      let vs = rd_list (fun () -> rd_cval rd_row) in
+      let ls = rd_list (fun () -> if !toks.(!pos) = "-" then (incr pos; None) else Some (rd_bytes ())) in
+      let n = node_roundtrip { n_keys = ks; n_vals = vs; n_links = ls } in
+      pr_list pr_sval n.n_keys;
+      pr_list pr_cval_row n.n_vals;
+      pr_list (function None -> pr "-" | Some b -> pr_bytes b) n.n_links
   | "lww" ->
       (* payload is an opaque integer id for the kv layer *)
       let a = rd_cval rd_z in let b = rd_cval rd_z in
